@@ -82,6 +82,9 @@ var (
 	curActive atomic.Bool
 )
 
+// WorkDir is a scratch directory private to this worker (removed by the supervisor).
+var WorkDir string
+
 type stopGen struct{}
 type recycleGen struct{}
 
@@ -225,6 +228,10 @@ func WorkerMain(opts WorkerOpts) {
 	}
 	if opts.CaseMs == 0 {
 		opts.CaseMs = 10000
+	}
+	if opts.Dump != "" {
+		WorkDir = opts.Dump + ".d"
+		os.MkdirAll(WorkDir, 0o755)
 	}
 	out := bufio.NewWriterSize(os.Stdout, 1<<16)
 	go watchdog(out, opts)
